@@ -29,7 +29,7 @@ Depth == IF "C10_DEPTH" \in DOMAIN IOEnv THEN atoi(IOEnv.C10_DEPTH) ELSE 4
 (* which actions a check uses: "text" (C10: output/scan/exec), "bin" (C11: write/read/output/exec), "all" *)
 Mode == IF "C10_MODE" \in DOMAIN IOEnv THEN IOEnv.C10_MODE ELSE "all"
 
-VARIABLES ctxs,    \* <<[nf, num, org, src]>>   org: "api" | "pytext" | "scan" | "read";  src: artefact index (0: built directly)
+VARIABLES ctxs,    \* <<[nf, num, org, src]>>   org: "api" | "pytext" | "merge" | "scan" | "read";  src: artefact index (0: built directly)
           arts,    \* <<[fmt, nf, num, src, via]>>  fmt: "text" | "bin";  src: context index
           h        \* history: <<[a, x, via]>>
 vars == <<ctxs, arts, h>>
@@ -37,6 +37,10 @@ vars == <<ctxs, arts, h>>
 Origins == {[nf |-> "id", num |-> "canon", org |-> "api", src |-> 0],
             [nf |-> "id", num |-> "rev", org |-> "api", src |-> 0],          \* labels created in another order than they appear
             [nf |-> "text", num |-> "canon", org |-> "pytext", src |-> 0]}   \* built by scanning text rendered from the abstract module
+           \cup (IF Mode = "text" THEN {}
+                 \* M and a renamed copy of M built in two SEPARATE contexts (so their label numbers coincide), each written to
+                 \* its own binary stream, both streams read into this one context: modules of one context that reuse label numbers
+                 ELSE {[nf |-> "id", num |-> "dup", org |-> "merge", src |-> 0]})
 
 Init == /\ \E o \in Origins : ctxs = <<o>>
         /\ arts = <<>> /\ h = <<>>
